@@ -122,8 +122,11 @@ func check(c *Case) []fail {
 			}
 		}
 	case "getpath":
-		o, pk := w.getPath(m, root, vl.UnHex(c.GP))
+		o, pk, hang := w.getPath(c, m, root, vl.UnHex(c.GP))
 		pan("GetPath/PathInMask", pk)
+		if hang {
+			fs = append(fs, fail{"hang:getpath-backslash-under-all", "GetPath/PathInMask does not terminate (a backslash token never advances the iterator and the loop `continue`s when the mask node is 'all')", "a result", "no return within 3 s"})
+		}
 		if o == "pathinmask-differs" {
 			fs = append(fs, fail{"pim:differs-from-getpath", "PathInMask and GetPath disagree", "equal", "different"})
 		}
@@ -455,7 +458,7 @@ func (rn *runner) scenario(w *World, g *pathGen, nq int) {
 				gp = g.raw()
 			}
 			c.GP = vl.Hex(gp)
-			o, _ := w.getPath(m, root, gp)
+			o, _, _ := w.getPath(&c, m, root, gp)
 			rn.out.Case(fmt.Sprintf("P 0 %s %s", rootToks, vl.Hex(gp)), o, true)
 			rn.out.Count("getpath/" + o[:1])
 			rn.report(c, check(&c))
@@ -707,6 +710,8 @@ func main() {
 		err = run(*dir, *seed, *tier)
 	case "replay":
 		err = replay(*file)
+	case "child":
+		err = child()
 	default:
 		err = fmt.Errorf("usage: c14 extract|run|replay")
 	}
